@@ -1516,6 +1516,9 @@ impl Translator {
                 let SolvedType::Function(args, _) = self.get_ty(mono, func_node).unwrap() else {
                     unreachable!()
                 };
+                // a variant with several declared fields carries a tuple, also when all but
+                // one of them are void (patterns deconstruct it as a tuple)
+                let declared_fields = args.len();
                 for arg_ty in args {
                     match arg_ty {
                         SolvedType::Void => {}
@@ -1526,11 +1529,9 @@ impl Translator {
                         }
                     }
                 }
-                if nargs > 1 {
+                if declared_fields > 1 {
                     self.emit(st, Instr::ConstructStruct(nargs));
-                }
-
-                if nargs == 0 {
+                } else if nargs == 0 {
                     self.emit(st, Instr::PushNil(1)); // TODO: optimize this away
                 }
 
